@@ -55,7 +55,7 @@ class StructTrip(Harness):
         self.maxn = spec.get('maxn', 2 if tier == 'quick' else 3)
         self.entry = [self.ty + '::' + spec.get('write', 'write_to'), self.ty + '::set_attributes']
         fl = ', '.join('%s (%s)' % (f[0], f[2][0]) for f in spec['fields'])
-        self.doc = 'a %s with every listed field independently left unset or set to a symbolic value, written by the real %s::%s into an XML event stream and read back by the real %s::set_attributes: every getter returns what it returned before, and writing the reloaded object again gives the same XML (second generation = first). Fields: %s' % (self.ty.split('::')[-1], self.ty.split('::')[-1], spec.get('write', 'write_to'), self.ty.split('::')[-1], fl)
+        self.doc = 'a %s with every listed field independently left unset or set to a symbolic value, written by the real %s::%s into an XML event stream and read back by the real %s::set_attributes: every getter returns what it returned before, also after a second write/read generation, and the second generation is a fixed point (written again after another reload it is the same XML). Fields: %s' % (self.ty.split('::')[-1], self.ty.split('::')[-1], spec.get('write', 'write_to'), self.ty.split('::')[-1], fl)
         self.bounds = {'fields': {f[0]: list(f[2]) for f in spec['fields']}, 'text_chars': [0, self.maxn], 'xml': 'quick-xml by contract model (escape on write, raw attribute values, unescape, text trimming)'}
     def setup(self, it):
         from engine import cryptomodel as cm
@@ -159,15 +159,28 @@ class StructTrip(Harness):
                 extra = [tok(a, empty) for a in sp.get('read_args', [])]
                 it.call(T + '::set_attributes::<&[u8]>', [Ref(back), Ref(Box_(rd)), Ref(Box_(first.fields[0]))] + extra)
             after = self.getters(it, back)
+            # second generation: the reloaded object written again, reloaded again and written a third time
             rec2 = xmlmodel.Recorder()
             it.call(T + '::' + sp.get('write', 'write_to'), [Ref(back), Ref(Box_(rec2))] + wargs())
+            back2 = Box_(it.call('<%s as std::default::Default>::default' % T, []))
+            if rec2.events:
+                first2 = rec2.events[0]; empty2 = (first2.variant if isinstance(first2.variant, str) else xmlmodel.event_order()[first2.variant]) == 'Empty'
+                rd2 = xmlmodel.XmlReader(rec2.events[1:], trim=True)
+                it.call(T + '::set_attributes::<&[u8]>', [Ref(back2), Ref(Box_(rd2)), Ref(Box_(first2.fields[0]))] + [tok(a, empty2) for a in sp.get('read_args', [])])
+            after2 = self.getters(it, back2)
+            rec3 = xmlmodel.Recorder()
+            it.call(T + '::' + sp.get('write', 'write_to'), [Ref(back2), Ref(Box_(rec3))] + wargs())
         except Panic as e:
             self.fail(ctx, res, 'no-panic', str(e), info=info); return
         finally:
             it.stubs = {}
         for f, b, a in zip(sp['fields'], before, after):
             self.oblige(ctx, res, 'same-' + f[1], same(ctx, a, b), info=dict(info, field=f[1]))
-        self.oblige(ctx, res, 'second-generation-xml-identical', events_equal(ctx, evs, rec2.events), info=dict(info, gen2_events=len(rec2.events)))
+        for f, b, a in zip(sp['fields'], after, after2):
+            self.oblige(ctx, res, 'second-generation-same-' + f[1], same(ctx, a, b), info=dict(info, field=f[1]))
+        # the second generation is a fixed point: written again after another reload it is the same XML
+        # (the first generation may still hold what the writer emits for an unset-but-touched field, e.g. an empty element)
+        self.oblige(ctx, res, 'second-generation-is-a-fixed-point', events_equal(ctx, rec2.events, rec3.events), info=dict(info, gen2_events=len(rec2.events), gen3_events=len(rec3.events)))
     def case_of(self, v):
         m = v['model']; vals = {}
         fields = self.spec['fields']
